@@ -3,7 +3,7 @@ import NunavutVerif.Lemmas.GenPyTop
 The concrete environment `stdEnv` of the driver satisfies the hypotheses of the refinement theorems:
 * `lenRes` (the residue analysis standing for PyDSDL's `BitLengthSet`) is a sound alignment oracle;
 * the little-endian NumPy oracles satisfy `NpSound`.
-(`FloatSound stdEnv` — IEEE facts about `narrowTo` / `widenFrom` — is in `Lemmas/GenPyFloat.lean`.)
+(`FloatSound stdEnv` is in `Lemmas/GenPyFloat.lean`.)
 -/
 namespace NunavutVerif.GenPy
 open NunavutVerif.Dsdl
